@@ -31,10 +31,12 @@ class Stepper:
 
     # ----- prange replacement -----
     def prange(self, *args):
-        share = getattr(self.local, "share", None)
-        if share is None:
+        """the worker's share of whatever index space the kernel hands to prange (the space is the kernel's
+        business: a refactoring may iterate over compacted source rows instead of all points)"""
+        wid = getattr(self.local, "wid", None)
+        if wid is None:
             return range(*args)
-        return iter(share)
+        return iter(self.partition(list(range(*args)))[wid])
 
     # ----- scheduling -----
     def _pick(self, exclude=None):
@@ -59,8 +61,8 @@ class Stepper:
                     while self.current != wid:
                         self.cv.wait()
 
-    def _worker(self, wid, code, fn, args, share):
-        self.local.share = share
+    def _worker(self, wid, code, fn, args):
+        self.local.wid = wid
 
         def tracer(frame, event, arg):
             if frame.f_code is code:
@@ -88,12 +90,14 @@ class Stepper:
                     self.current = self._pick()
                 self.cv.notify_all()
 
-    def run(self, fn, args, shares):
-        """fn: the kernel's Python function; shares: list of index lists, one per worker."""
+    def run(self, fn, args, partition):
+        """fn: the kernel's Python function; partition(items) -> list of T index lists (one per worker), a pure
+        function of the items and the step's seed."""
         code = fn.__code__
-        self.alive = set(range(len(shares)))
-        threads = [threading.Thread(target=self._worker, args=(w, code, fn, args, shares[w]), daemon=True)
-                   for w in range(len(shares))]
+        self.partition = partition
+        self.alive = set(range(self.T))
+        threads = [threading.Thread(target=self._worker, args=(w, code, fn, args), daemon=True)
+                   for w in range(self.T)]
         for t in threads:
             t.start()
         with self.cv:
